@@ -74,4 +74,25 @@ theorem spent_is_gone {s s' : State} {b g : Block} {G : Nat} (hinj : HashInj b.t
 theorem reject_keeps_unspent (s : State) (b : Block) (e : String) (h : execSigned s b = .error e) :
     (applyOp s (.exec b)).unspent = s.unspent := by simp [applyOp, h]
 
+/-- **no double spend across blocks**: once a block spending output `i` has been accepted, the very next
+state refuses EVERY block that names `i` among its inputs again — whatever else that block contains,
+whoever signed it, in either node configuration -/
+theorem double_spend_rejected {s s' : State} {b b2 g g' : Block} {G : Nat} (hinj : HashInj b.txns)
+    (hg : s.chain.head? = some g) (hinv : Inv s G) (hwf : ∀ t ∈ b.txns, WfSound t)
+    (h : execSigned s b = .ok s')
+    (hinj2 : HashInj b2.txns) (hg' : s'.chain.head? = some g') (hwf2 : ∀ t ∈ b2.txns, WfSound t)
+    (i : Id) (hi : i ∈ blockInputs b) (hi2 : i ∈ blockInputs b2) :
+    ∀ s'', execSigned s' b2 ≠ .ok s'' := by
+  intro s'' h2
+  have hgone := spent_is_gone hinj hg hinv hwf h i hi
+  exact hgone ((accept_requires_unspent_and_distinct hinj2 hg' hwf2 h2).1 i hi2)
+
+/-- the same inside ONE block: a block in which two transactions (or one transaction twice) name the same
+output is never accepted -/
+theorem double_spend_in_block_rejected {s : State} {b g : Block} (hinj : HashInj b.txns)
+    (hg : s.chain.head? = some g) (hwf : ∀ t ∈ b.txns, WfSound t) (hdup : ¬ (blockInputs b).Nodup) :
+    ∀ s', execSigned s b ≠ .ok s' := by
+  intro s' h
+  exact hdup (accept_requires_unspent_and_distinct hinj hg hwf h).2
+
 end Sky.Props.C02
